@@ -132,6 +132,18 @@ var specs = map[string]spec{
 		},
 		Assumptions: commonAssumptions, Plain: true, QuickStride: 1, ThoroughStride: 1, QuickDeadline: 420, ThoroughDeadline: 3000,
 	},
+	"C10": {
+		LevelText: "bounded exhaustive enumeration of message bodies (<=3 parts over 26 text/html/print/call parts whose base names collide, plurals with every case set over {0,1,2}) x meanings x surroundings; every message is compiled under every Go map iteration order that the naming code can see (map order is an explorer choice point, deviation-bounded) and the id and placeholder names must be identical on all of them, equal to an independent port of the official algorithm (validated against ids pinned from the Java implementation), unchanged by description and surroundings, and pairwise distinct for distinct contents",
+		LevelNote: "trusted base: harness/ref_msg.go (port of the official fingerprint, base-name and suffix rules; self-test against 8 Java-produced ids at start-up); map orders are explored up to 2 (thorough 3) non-canonical positions",
+		Technique: "stateless model checking over map-iteration choice points (deviation-bounded DFS) plus bounded exhaustive input enumeration against a reference algorithm",
+		Level:     "model_checking",
+		Rule:      "a state is a (message body, meaning) pair; transitions = compilations under distinct map orders and surroundings (counter map_orders_explored); every case is non-trivial (id and names compared)",
+		Bounds: map[string]string{
+			"quick":    "bodies of <=3 parts over 26 parts (meanings on bodies <=2), 5 plural variables x 8 case sets x a fifth of 42 bodies; 4 surroundings each; map-order deviation bound 2",
+			"thorough": "bodies of <=4 parts, all plural bodies, deviation bound 3",
+		},
+		Assumptions: commonAssumptions, Plain: true, QuickStride: 1, ThoroughStride: 3, QuickDeadline: 420, ThoroughDeadline: 3000, OrderSensitive: true,
+	},
 	"C05": {
 		LevelText: "bounded exhaustive exploration of the real parser: every input of the stated small scopes is parsed under a controlled scheduler with a deterministic linear fuel bound (no wall clock), and small inputs under every parser/scanner interleaving up to 2 preemptions; termination, no panic, no deadlock and tree-xor-error are checked on every execution and every case is replayed on the uninstrumented build",
 		LevelNote: "assumes the bounded scopes are representative (small-scope hypothesis) and that the overlay instrumentation preserves behaviour (cross-checked case by case against the plain build)",
